@@ -38,6 +38,8 @@ REPLAY_MODULE = 'rac.C17_ded'
 
 def build(ctx):
     m = ctx.mod('_bitemporal')
+    # replays are fixed native batteries per obligation family (the counterexamples are interpretations of uninterpreted pandas operations)
+    ctx.default_meta = dict(replay_without_model=True)
     bf = base_facts
     w0 = dict(k=IntVal(0))
     GLOB = ['_updated', '_series', '_columns', '_nth']
